@@ -775,3 +775,130 @@ Proof.
   destruct (finish_time_step vb2 e2) as [[vb3 e3]| |]; cbn [bind]; [|reflexivity..].
   unfold ESN, ghw_end_snapshot_section. cbn [app firstn skipn mark_eq list_eqb N.eqb Pos.eqb andb]. reflexivity.
 Qed.
+
+(* ------------------------------------------------------------------ the whole signal part of a file *)
+Lemma run_cycles_keys lz_compress cap sigs : forall cs time vb e vb' e',
+  run_cycles lz_compress cap sigs time vb e cs = Ok (Some (vb', e')) -> vkeys vb' = vkeys vb.
+Proof.
+  induction cs as [|c r IH]; intros time vb e vb' e' H; cbn [run_cycles] in H; [discriminate|].
+  destruct (effs_of sigs 0 (gc_recs c)) as [effs|]; [|discriminate].
+  destruct (time_change lz_compress cap e time) as [e1| |]; cbn [bind] in H; try discriminate.
+  destruct (run_effs vb e1 effs) as [[vb1 e2]| |] eqn:Er; cbn [bind] in H; try discriminate.
+  destruct (finish_time_step vb1 e2) as [[vb3 e3]| |] eqn:Ef; cbn [bind] in H; try discriminate.
+  assert (Hk : vkeys vb3 = vkeys vb) by (rewrite (finish_keys _ _ _ _ Ef); exact (run_effs_keys _ _ _ _ _ Er)).
+  destruct (gc_dt c <? 0)%Z; [injection H as <- <-; exact Hk|]. rewrite (IH _ _ _ _ _ H). exact Hk.
+Qed.
+
+(* a cycle section: the bytes of its first time and its cycles *)
+Definition csec := (list byte * list gcyc)%type.
+Definition csec_bytes (s : csec) : list byte := CYC ++ fst s ++ concat (map gcyc_bytes (snd s)) ++ ECY.
+Definition csec_ok (sigs : list ghw_sig) (s : csec) : Prop :=
+  length (fst s) = 8%nat /\ snd s <> [] /\ Forall gdt_ok (snd s) /\
+  Forall (fun c => grecs_ok sigs 0 (gc_recs c) /\ effs_of sigs 0 (gc_recs c) <> None) (snd s) /\
+  (forall c, In c (removelast (snd s)) -> (0 <= gc_dt c)%Z) /\ (gc_dt (last (snd s) (mk_gcyc [] [] 0)) < 0)%Z.
+
+(* the abstract run of the cycle sections *)
+Fixpoint run_sections (lz_compress : list byte -> list byte) (cap : N) (be : bool) (sigs : list ghw_sig)
+                      (vb : vec_buffer) (e : encoder) (ss : list csec) : outcome (option (vec_buffer * encoder)) :=
+  match ss with
+  | [] => Ok (Some (vb, e))
+  | s :: r =>
+    do x <- run_cycles lz_compress cap sigs (read_int be (fst s)) vb e (snd s);
+    match x with
+    | Some (vb', e') => run_sections lz_compress cap be sigs vb' e' r
+    | None => Ok None
+    end
+  end.
+
+(* the directory and the tailer that end the file *)
+Definition dir_tail_ok (be : bool) (dt : list byte) : Prop :=
+  exists h4 nb entries tail junk,
+    dt = DIR ++ h4 ++ nb ++ entries ++ EOD ++ TAI ++ tail ++ junk /\
+    length h4 = 4%nat /\ length nb = 4%nat /\ read_int be nb < 2147483648 /\
+    length entries = (N.to_nat (read_int be nb) * 8)%nat /\
+    dir_entries_ok be (N.to_nat (read_int be nb)) (entries ++ EOD ++ TAI ++ tail ++ junk) = true /\ (8 <= length tail)%nat.
+
+Lemma sections_tai lz_compress cap be sigs vb e tail junk f :
+  (8 <= length tail)%nat -> sections lz_compress cap (S f) be sigs vb e (TAI ++ tail ++ junk) = Ok (Some e).
+Proof.
+  intros Ht. unfold TAI, ghw_tailer_section. cbn [app sections length firstn skipn Nat.ltb Nat.leb].
+  cbn [mark_eq list_eqb N.eqb Pos.eqb andb negb].
+  unfold SNP, ghw_snapshot_section, CYC, ghw_cycle_section, DIR, ghw_directory_section, TAI, ghw_tailer_section.
+  cbn [list_eqb N.eqb Pos.eqb andb].
+  match goal with |- context [(?a <=? 7)%nat] => destruct (Nat.leb_spec a 7) as [H|H] end;
+    [rewrite app_length in H; lia|reflexivity].
+Qed.
+
+Lemma sections_dir_tail lz_compress cap be sigs vb e dt f :
+  dir_tail_ok be dt -> sections lz_compress cap (S (S f)) be sigs vb e dt = Ok (Some e).
+Proof.
+  intros (h4 & nb & entries & tail & junk & -> & H4 & Hn & Hlt & Hle & Hde & Ht).
+  destruct h4 as [|b0 [|b1 [|b2 [|b3 [|x y]]]]]; try discriminate.
+  destruct nb as [|n0 [|n1 [|n2 [|n3 [|x y]]]]]; try discriminate.
+  remember (read_int be [n0; n1; n2; n3]) as n eqn:En.
+  remember (S f) as f1 eqn:Ef1.
+  remember (entries ++ EOD ++ TAI ++ tail ++ junk) as body eqn:Eb.
+  unfold DIR, ghw_directory_section. cbn [app sections length firstn skipn Nat.ltb Nat.leb].
+  cbn [mark_eq list_eqb N.eqb Pos.eqb andb negb].
+  unfold SNP, ghw_snapshot_section, CYC, ghw_cycle_section, DIR, ghw_directory_section. cbn [list_eqb N.eqb Pos.eqb andb].
+  unfold byte in *. rewrite <- En.
+  replace (2147483648 <=? n) with false by (symmetry; apply N.leb_gt; exact Hlt).
+  assert (Hlb : N.of_nat (length body) <? n * 8 + 4 = false).
+  { apply N.ltb_ge. rewrite Eb. rewrite !app_length. unfold EOD, ghw_end_directory_section. cbn [length]. lia. }
+  rewrite Hlb, Hde. cbn [negb].
+  assert (Hsk : skipn (N.to_nat n * 8) body = EOD ++ TAI ++ tail ++ junk).
+  { rewrite Eb, <- Hle. rewrite skipn_app, Nat.sub_diag, skipn_all. reflexivity. }
+  assert (Hsk4 : skipn (N.to_nat n * 8 + 4) body = TAI ++ tail ++ junk).
+  { rewrite Eb, <- Hle. rewrite skipn_app. replace (length entries + 4 - length entries)%nat with 4%nat by lia.
+    rewrite skipn_all2 by lia. unfold EOD, ghw_end_directory_section. reflexivity. }
+  rewrite Hsk, Hsk4. unfold EOD, ghw_end_directory_section. cbn [app firstn mark_eq list_eqb N.eqb Pos.eqb andb].
+  rewrite Ef1. exact (sections_tai lz_compress cap be sigs vb e tail junk f Ht).
+Qed.
+
+Lemma sections_cycles_all lz_compress cap be sigs : forall ss vb e dt f,
+  Forall (csec_ok sigs) ss -> consistent sigs vb -> dir_tail_ok be dt -> (length ss + 2 <= f)%nat ->
+  sections lz_compress cap f be sigs vb e (concat (map csec_bytes ss) ++ dt)
+  = match run_sections lz_compress cap be sigs vb e ss with
+    | Ok (Some (_, e')) => Ok (Some e')
+    | Ok None => Ok None
+    | Err => Err
+    | Panic => Panic
+    end.
+Proof.
+  induction ss as [|s r IH]; intros vb e dt f Hall Hc Hdt Hf.
+  - cbn [map concat app run_sections]. destruct f as [|[|f]]; try (cbn in Hf; lia). exact (sections_dir_tail _ _ _ _ _ _ _ _ Hdt).
+  - apply Forall_cons_iff in Hall as [(H8 & Hne & Hg & Hr & Hp & Hl) Hall].
+    destruct f as [|f]; [cbn in Hf; lia|]. cbn [length] in Hf.
+    cbn [map concat run_sections]. unfold csec_bytes at 1. rewrite <- !app_assoc.
+    rewrite (section_cycles lz_compress cap be sigs (snd s) (fst s) vb e _ f H8 Hne Hg Hr Hp Hl Hc).
+    destruct (run_cycles lz_compress cap sigs (read_int be (fst s)) vb e (snd s)) as [[[vb' e']|]| |] eqn:E; cbn [bind]; try reflexivity.
+    apply (IH vb' e' dt f Hall); [|exact Hdt|lia].
+    exact (consistent_keys sigs vb vb' (run_cycles_keys _ _ _ _ _ _ _ _ _ E) Hc).
+Qed.
+
+(* the signal part of a file - snapshot section, cycle sections, directory, tailer - is its abstract run: the snapshot's
+   time stamp and values, the end of that step, then every cycle section's cycles *)
+Theorem ghw_body_run lz_compress cap be sigs ps t8 effs ss dt vb e f :
+  length t8 = 8%nat -> length ps = length sigs ->
+  snap_effs sigs 0 ps = Some effs -> snap_ok sigs 0 ps -> consistent sigs vb ->
+  Forall (csec_ok sigs) ss -> dir_tail_ok be dt -> (length ss + 3 <= f)%nat ->
+  sections lz_compress cap f be sigs vb e
+           (SNP ++ [0; 0; 0; 0] ++ t8 ++ concat ps ++ ESN ++ concat (map csec_bytes ss) ++ dt)
+  = do e1 <- time_change lz_compress cap e (read_int be t8);
+    do '(vb2, e2) <- run_effs vb e1 effs;
+    do '(vb3, e3) <- finish_time_step vb2 e2;
+    match run_sections lz_compress cap be sigs vb3 e3 ss with
+    | Ok (Some (_, e')) => Ok (Some e')
+    | Ok None => Ok None
+    | Err => Err
+    | Panic => Panic
+    end.
+Proof.
+  intros Ht Hl Hs Hok Hc Hall Hdt Hf. destruct f as [|f]; [lia|].
+  rewrite (section_snapshot lz_compress cap be sigs ps t8 vb e _ f effs Ht Hl Hs Hok Hc).
+  destruct (time_change lz_compress cap e (read_int be t8)) as [e1| |]; cbn [bind]; [|reflexivity..].
+  destruct (run_effs vb e1 effs) as [[vb2 e2]| |] eqn:Er; cbn [bind]; [|reflexivity..].
+  destruct (finish_time_step vb2 e2) as [[vb3 e3]| |] eqn:Ef; cbn [bind]; [|reflexivity..].
+  apply (sections_cycles_all lz_compress cap be sigs ss vb3 e3 dt f Hall); [|exact Hdt|lia].
+  apply (consistent_keys sigs vb vb3); [|exact Hc]. rewrite (finish_keys _ _ _ _ Ef). exact (run_effs_keys _ _ _ _ _ Er).
+Qed.
